@@ -35,10 +35,22 @@ DenRun(pr, b, pc, chain, level, vals, modes) ==
               [] ins.p = "mul" -> cont(DV(PMul(a[1].p, a[2].p), tn, po))
               [] ins.p = "neg" -> cont(DV(PNeg(a[1].p), tn, po))
               [] ins.p = "nd"  -> cont(DV(PConst(PEval(a[1].p, vals)), {}, po))
+              [] ins.p = "user" ->
+                   \* product primitive with a registered rule table: a missing rule for a traced argument raises; an argument
+                   \* registered as non-differentiable (None) is a constant for the differentiation (first order only)
+                   IF \E i \in DOMAIN a : pr.utable[i] = "missing" /\ a[i].taint # {} THEN OutRaise
+                   ELSE IF \E i \in DOMAIN a : pr.utable[i] = "zero" /\ a[i].taint # {} /\ level > 1 THEN OutUnknown
+                   ELSE LET F[i \in 0..Len(a)] ==
+                              IF i = 0 THEN PConst(pr.uscale)
+                              ELSE PMul(F[i-1], IF pr.utable[i] = "zero" THEN PConst(PEval(a[i].p, vals)) ELSE a[i].p)
+                            tn2 == UNION {a[i].taint : i \in {j \in DOMAIN a : pr.utable[j] # "zero"}}
+                        IN cont(DV(F[Len(a)], tn2, po))
               [] ins.p = "bomb" -> IF tn = {} THEN cont(a[1])
                                    ELSE IF \E l \in tn : modes[l] = "jvp" THEN OutUnknown
                                    ELSE cont(DV(a[1].p, tn, TRUE)))
     [] ins.op = "call" -> LET r == nested(ins.b) IN IF r.o = "val" THEN cont(r.v) ELSE r
+    [] ins.op = "ckpt" -> LET r == DenRun(pr, ins.b, 1, Append(chain, [i \in DOMAIN ins.a |-> get(ins.a[i])]), level, vals, modes)
+                          IN IF r.o = "val" THEN cont(r.v) ELSE r
     [] ins.op = "try" -> LET r == nested(ins.b) IN
                          IF r.o = "val" THEN cont(r.v)
                          ELSE IF r.o = "raise" THEN cont(DV(PConst(DFallback), {}, FALSE))
